@@ -218,6 +218,8 @@ GH_USERS = ['Peer-One', 'lead']
 def github_harness(n):
     import itertools
     perms = list(itertools.permutations(range(n)))
+    if n > 3:
+        perms = [perms[0], perms[-1]]      # timeline order and its reverse only (8^4 x 24 paths otherwise)
 
     def h(ctx):
         from bert_e.git_host import github as GH
@@ -287,7 +289,7 @@ def github_part(rep):
                               'get_participants', 'git_host.github.Review.approved/commented/changes_requested']
     nmax = 3 if rep.tier == 'quick' else 4
     rep.bounds['github reviews'] = dict(reviews='1..%d' % nmax, reviewers=GH_USERS, states=GH_STATES,
-                                        api_order='every permutation')
+                                        api_order='every permutation (4 reviews: timeline order and its reverse)')
     for (results, st), n in zip(common.pmap(_gh_explore, list(range(1, nmax + 1))), range(1, nmax + 1)):
         rep.add_stats(st, 'github review summarisation, %d reviews' % n)
         seen = set()
